@@ -1,5 +1,106 @@
-(* C09 - placeholder while the correspondence is brought up *)
-From LibTw2 Require Import Base.Res Model.Snap.
-Example C09_nonvacuous : crc raw_empty = 0.
-Proof. reflexivity. Qed.
+(* C09 - applying a snapshot delta reproduces the target snapshot.
+   Only the property theorems (about Model/Snap.v), each closed by lemmas of
+   Proofs/Snap*.v.  raw_ok is the boolean state invariant of RawSnap (sorted i32 keys,
+   ranges tile the buffer, <= 1024 items, <= 64 KiB); k09 is the known-finding class
+   K09 (a key present in both snapshots with different lengths). *)
+From LibTw2 Require Import Base.Res Model.Varint Model.Packer Model.Snap
+  Proofs.SnapBase Proofs.SnapRep Proofs.SnapDelta Proofs.SnapApply Proofs.SnapOk
+  Proofs.SnapWire Proofs.SnapWireInst Proofs.SnapC09.
+From Coq Require Import ZArith List Lia.
+Import ListNotations.
+Open Scope Z_scope.
+
+(* Delta::create then RawSnap::read_with_delta: the target again - same items in the same
+   (key) order, same lookups, same checksum, no warning *)
+Theorem C09_apply_create : forall A B, raw_ok A = true -> raw_ok B = true -> k09 A B = false ->
+  exists d B',
+    create_raw A B = Ok d
+    /\ raw_read_with_delta A d = (Ok B', [])
+    /\ @raw_items unit B' = raw_items B
+    /\ (forall ty id, @raw_item unit B' ty id = raw_item B ty id)
+    /\ crc B' = crc B.
+Proof.
+  intros A B OA OB Hk. destruct (c09_main (fun _ => None) A B OA OB Hk) as (d & B' & H1 & H2 & H3 & H4 & H5 & _).
+  exists d, B'. repeat split; auto.
+Qed.
+
+(* the wire form of any well-formed delta reads back as the same delta, without warning,
+   as integers and as packed bytes, for any table of pre-agreed sizes the delta respects *)
+Theorem C09_wire : forall sz d, delta_ok sz d = true ->
+  exists l bs,
+    delta_ints sz d = Ok l /\ ints_to_bytes l = Ok bs
+    /\ (forall cap, (length l <= cap)%nat -> delta_write_to_ints sz d cap = Ok l)
+    /\ (forall cap, (length bs <= cap)%nat -> delta_write_bytes sz d cap = Ok bs)
+    /\ delta_read_from_ints sz l = (Ok d, [])
+    /\ delta_read_bytes sz bs = (Ok d, []).
+Proof.
+  intros sz d H. destruct (delta_wire_bytes sz d H) as (l & bs & H1 & H2 & H3).
+  destruct (delta_wire_ints sz d H) as (l' & H1' & H4). rewrite H1 in H1'. injection H1' as <-.
+  exists l, bs. split; [exact H1|]. split; [exact H2|].
+  split; [|split; [|split; assumption]].
+  - intros cap Hc. unfold delta_write_to_ints. rewrite H1.
+    replace (cap <? length l)%nat with false by (symmetry; apply Nat.ltb_ge; exact Hc). reflexivity.
+  - intros cap Hc. unfold delta_write_bytes. rewrite H1, H2.
+    replace (cap <? length bs)%nat with false by (symmetry; apply Nat.ltb_ge; exact Hc). reflexivity.
+Qed.
+
+(* create, write, read, apply *)
+Corollary C09_end_to_end : forall sz A B, raw_ok A = true -> raw_ok B = true -> k09 A B = false ->
+  sizes_respected sz B = true ->
+  exists d l bs B',
+    create_raw A B = Ok d /\ delta_ints sz d = Ok l /\ ints_to_bytes l = Ok bs
+    /\ (exists d1, delta_read_from_ints sz l = (Ok d1, []) /\ raw_read_with_delta A d1 = (Ok B', []))
+    /\ (exists d2, delta_read_bytes sz bs = (Ok d2, []) /\ raw_read_with_delta A d2 = (Ok B', []))
+    /\ @raw_items unit B' = raw_items B /\ crc B' = crc B.
+Proof.
+  intros sz A B OA OB Hk Hs. destruct (c09_main sz A B OA OB Hk) as (d & B' & H1 & H2 & H3 & _ & H5 & H6).
+  destruct (H6 Hs) as (l & bs & W1 & W2 & W3 & W4).
+  exists d, l, bs, B'. repeat split; auto; exists d; split; assumption.
+Qed.
+
+(* K09: where an item keeps its key and changes its length, Delta::create panics *)
+Theorem C09_K09_panics : forall A B, raw_ok A = true -> raw_ok B = true -> k09 A B = true ->
+  exists s, create_raw A B = Panic s.
+Proof. exact c09_k09. Qed.
+
+(* concrete snapshots: keys on both sides of the signed boundary, a removed, a changed (wrapping),
+   an added and an untouched item; and the K09 witness of DESIGN.md section 9 *)
+Definition exA : rawsnap :=
+  match add_item raw_empty 32768 2 [i32_min; 7] with
+  | Ok S1 => match add_item S1 5 1 [9; 9] with
+             | Ok S2 => match add_item S2 1 0 [] with Ok S3 => S3 | _ => raw_empty end
+             | _ => raw_empty end
+  | _ => raw_empty end.
+Definition exB : rawsnap :=
+  match add_item raw_empty 5 1 [9; 10] with
+  | Ok S1 => match add_item S1 32768 2 [i32_max; 7] with
+             | Ok S2 => match add_item S2 65535 65535 [1; 2; 3] with Ok S3 => S3 | _ => raw_empty end
+             | _ => raw_empty end
+  | _ => raw_empty end.
+Definition exK : rawsnap :=
+  match add_item raw_empty 5 1 [9; 9; 9] with Ok S1 => S1 | _ => raw_empty end.
+
+Definition exD : delta :=
+  {| d_del := [65536];
+     d_upd := [(-2147483646, (0, 2)%nat); (-1, (2, 5)%nat); (327681, (5, 7)%nat)];
+     d_buf := [-1; 0; 1; 2; 3; 0; 1] |}.
+Definition exT : osize := fun ty => if ty =? 5 then Some 2 else None.
+
+Example C09_nonvacuous :
+  raw_ok exA = true /\ raw_ok exB = true /\ k09 exA exB = false
+  /\ map fst (rs_offs exB) = [-2147483646; -1; 327681]
+  /\ create_raw exA exB = Ok exD
+  /\ delta_ok exT exD = true /\ sizes_respected exT exB = true
+  /\ delta_ints exT exD = Ok [1; 3; 0; 65536; 32768; 2; 2; -1; 0; 65535; 65535; 3; 1; 2; 3; 5; 1; 0; 1]
+  /\ match raw_read_with_delta exA exD with
+     | (Ok X, []) => @raw_items unit X = raw_items exB /\ crc X = crc exB
+     | _ => False
+     end
+  /\ raw_ok exK = true /\ k09 exA exK = true /\ create_raw exA exK = Panic site_create_mismatch.
+Proof. vm_compute. repeat split. Qed.
+
+Print Assumptions C09_apply_create.
+Print Assumptions C09_wire.
+Print Assumptions C09_end_to_end.
+Print Assumptions C09_K09_panics.
 Print Assumptions C09_nonvacuous.
